@@ -323,11 +323,135 @@ pub fn run(w: usize, t: usize, reorder: bool, src: &str) -> String {
                             xs == ys
                         })
                 };
+                // with reordering on: nothing outside the import item lists differs from the output with it off,
+                // and every import is either kept or sorted
+                let mut ok19 = ok19;
+                if reorder {
+                    let keep = obs::obs_import_keep(root);
+                    for (i, k) in keep.iter().enumerate() {
+                        if *k && a.get(i) != b.get(i) {
+                            ok19 = false;
+                            f.push(format!("c19k={}", i));
+                        }
+                    }
+                    if let Outcome::Ok(out_off) = format(config(w, t, false), src) {
+                        let off = Source::detached(out_off);
+                        if obs::without_import_items(oroot) != obs::without_import_items(off.root()) {
+                            ok19 = false;
+                            f.push(format!("c19d={}", hex("output outside the import item lists differs between reorder on and off")));
+                        }
+                        let off_items = obs::obs_imports(off.root());
+                        for (x, y) in off_items.iter().zip(b.iter()) {
+                            let mut sorted = y.clone();
+                            sorted.sort();
+                            if x != y && *y != sorted {
+                                // neither kept nor sorted (sorting is by source text; allow any order that is a
+                                // permutation only when the normalised texts sort differently from the raw ones)
+                                let mut xs = x.clone();
+                                xs.sort();
+                                if xs != sorted {
+                                    ok19 = false;
+                                }
+                            }
+                        }
+                    }
+                }
                 f.push(format!("c19={}", ok19 as u8));
                 f.push(format!("imports={}", a.iter().map(|x| x.len()).sum::<usize>()));
                 if !ok19 {
                     f.push(format!("c19d={}", hex(&first_diff(&a, &b))));
                 }
+            }
+        }
+    }
+    f.join("\t")
+}
+
+
+fn node_ranges(n: &SyntaxNode, off: usize, out: &mut Vec<(usize, usize, K)>) {
+    let len = n.clone().into_text().len();
+    out.push((off, off + len, n.kind()));
+    let mut o = off;
+    for c in n.children() {
+        node_ranges(c, o, out);
+        o += c.clone().into_text().len();
+    }
+}
+
+/// C13: format_source_range on (src, a..b) with its oracle.
+pub fn range(w: usize, t: usize, a: usize, b: usize, src: &str) -> String {
+    let mut f: Vec<String> = Vec::new();
+    let source = Source::detached(src.to_string());
+    let root = source.root();
+    f.push(format!("in_err={}", root.erroneous() as u8));
+    f.push(format!("kfa={}", has_comment_in_equation(root, false) as u8));
+    f.push(format!("kfb={}", has_block_comment_near_item(root, false) as u8));
+    f.push(format!("kfc={}", has_empty_term(root) as u8));
+    f.push(format!("kfe={}", has_exotic_trailing_blank(src) as u8));
+    f.push(format!("kff={}", has_item_on_bracket_line(root) as u8));
+    f.push(format!("kfg={}", has_linebreak_before_punct(root) as u8));
+    let kfd = obs::obs_off(root).iter().any(|x| matches!(x, Some((_, t)) if t.contains('\n')));
+    f.push(format!("kfd={}", kfd as u8));
+    let cfg = config(w, t, false);
+    let res = crate::catch(std::panic::AssertUnwindSafe(|| {
+        typstyle_core::Typstyle::new(cfg).format_source_range(&source, a..b)
+    }));
+    match res {
+        Err(p) => {
+            f.push("class=panic".into());
+            f.push(format!("panic={}", hex(&p)));
+            f.push("c13=0".into());
+        }
+        Ok(Err(_)) => {
+            f.push("class=err".into());
+            f.push("c13=1".into());
+        }
+        Ok(Ok((r, text))) => {
+            f.push("class=ok".into());
+            f.push(format!("rs={}", r.start));
+            f.push(format!("re={}", r.end));
+            f.push(format!("out={}", hex(&text)));
+            let mut ok = true;
+            let mut why = String::new();
+            // the returned range lies on node boundaries
+            let mut rs = Vec::new();
+            node_ranges(root, 0, &mut rs);
+            if !rs.iter().any(|(s, e, _)| *s == r.start && *e == r.end) {
+                ok = false;
+                why.push_str("range is not a node range; ");
+            }
+            // it covers the requested range after clamping and trimming blanks
+            let len = src.len();
+            let (ca, cb) = (a.min(len), b.min(len));
+            if src.is_char_boundary(ca) && src.is_char_boundary(cb) && ca <= cb {
+                let piece = &src[ca..cb];
+                let te = ca + piece.trim_end().len();
+                let ts = te - src[ca..te].trim_start().len();
+                if !(r.start <= ts && te <= r.end) {
+                    ok = false;
+                    why.push_str("range does not cover the trimmed request; ");
+                }
+            }
+            // splice and re-parse
+            if r.end <= len && src.is_char_boundary(r.start) && src.is_char_boundary(r.end) {
+                let spliced = format!("{}{}{}", &src[..r.start], text, &src[r.end..]);
+                let s2 = Source::detached(spliced);
+                if !root.erroneous() {
+                    if s2.root().erroneous() {
+                        ok = false;
+                        why.push_str("spliced text has syntax errors; ");
+                    } else if obs::skeleton(root, false) != obs::skeleton(s2.root(), false) {
+                        ok = false;
+                        why.push_str("spliced text has a different skeleton; ");
+                    }
+                }
+            } else {
+                ok = false;
+                why.push_str("range not sliceable; ");
+            }
+            f.push(format!("c13={}", ok as u8));
+            if !ok {
+                f.push(format!("c13d={}", hex(&why)));
             }
         }
     }
